@@ -47,6 +47,7 @@ def setup(rep, tier):
     rep.minimum('R09.3', 1)
     rep.minimum('R09.4', 4)
     rep.minimum('R09.5', 3)
+    rep.minimum('R09.6', 1)
 
 
 def T_minmax(e):
@@ -460,7 +461,87 @@ def r09_5(rep, prog):
                                             '%d guard(s) `!intra_ener && loss_duration != 0`' % len(gb), **({} if ok else {'key': 'safe-prediction'}))
 
 
+def r09_6(rep, prog):
+    """LBRR gains are dequantised by the encoder the way the LBRR frame is emitted:
+    silk_Encode writes LBRR frame i with conditional coding iff i > 0 and frame i-1 has LBRR data;
+    the `conditional` flag the LBRR encoder hands to silk_gains_dequant must equal that for every
+    reachable (frame index, previous LBRR flag, coding mode of the regular frame)."""
+    name = 'silk_LBRR_encode_FLP' if prog.has_fn('silk_LBRR_encode_FLP') else 'silk_LBRR_encode_FIX'
+    if not prog.has_fn(name):
+        rep.unresolved('R09.6', 'LBRR encoder function not found')
+        return
+    f = prog.fn(name)
+    rep.functions.add(name)
+    pc = f.param_index('condCoding')
+    # emission rule read from silk_Encode: the block that sets condCoding = CODE_CONDITIONALLY in the LBRR loop
+    e = prog.fn('silk_Encode')
+    ce = cfgm.CFG(e)
+    emit = None
+    for b, i, n in ce.find(lambda n: n[0] == 'assign' and sx.kind(n[1]) == 'local' and n[1][1] == 'condCoding' and sx.int_val(n[2]) == 2):
+        conds = [(c, pol) for c, pol, gb in cfgm.guards_of(ce, b) if c is not None]
+        # the innermost condition chain mentions LBRR_flags[i-1]
+        if any(any(sx.kind(x) == 'field' and x[3] == 'LBRR_flags' for x in sx.walk(c)) for c, pol in conds) or \
+                any(any(sx.kind(x) == 'field' and x[3] == 'LBRR_flags' for x in sx.walk(ce.cond(p_))) for p_ in ce.pred[b] if ce.cond(p_) is not None):
+            emit = b
+    if emit is None or pc is None:
+        rep.unresolved('R09.6', 'cannot find the LBRR conditional-coding decision in silk_Encode / the condCoding parameter of %s' % name)
+        return
+    bad = None
+    ncase = 0
+    for nfe in (0, 1, 2):
+        for prev in (0, 1):
+            for cc in (0, 1, 2):
+                if cc == 2 and nfe == 0:
+                    continue          # silk_Encode never codes the first frame of a packet conditionally
+                if nfe == 0 and prev == 1:
+                    continue
+                if cc == 0 and nfe > 0:
+                    continue          # independent coding of the regular frame is chosen only for a channel's first frame of the packet
+                if cc == 1 and prev == 1:
+                    continue          # NO_LTP_SCALING follows a skipped side frame, for which no LBRR data was produced
+                # encoder emission under (i = nfe, LBRR_flags[i-1] = prev)
+                def res_e(x):
+                    x = sx.strip(x)
+                    if sx.kind(x) == 'local' and x[1] == 'i':
+                        return nfe
+                    if sx.kind(x) == 'idx' and sx.kind(sx.strip(x[1])) == 'field' and sx.strip(x[1])[3] == 'LBRR_flags' and 'i-1' in sx.show(x[2]).replace(' ', '').replace('(', '').replace(')', ''):
+                        return prev
+                    return None
+                want = _enabled_with(ce, emit, res_e) is not False
+                # LBRR encoder: value of the `conditional` argument at the dequant call
+                def hook(an_, node, st_):
+                    n_ = sx.strip(node)
+                    if sx.kind(n_) == 'idx' and sx.kind(sx.strip(n_[1])) == 'field' and sx.strip(n_[1])[3] == 'LBRR_flags':
+                        return absint.const(prev)
+                    if sx.kind(n_) == 'field' and n_[3] == 'nFramesEncoded':
+                        return absint.const(nfe)
+                    if sx.kind(n_) == 'field' and n_[3] == 'LBRR_enabled':
+                        return absint.const(1)
+                    return None
+                an = absint.Analyzer(prog, f, entry_state={('param', pc): absint.const(cc)}, call_summary=absint.inline_summary(prog), havoc_fields_on_call=False, load_hook=hook)
+                got = None
+                for b, i, c in an.cf.find(lambda c: c[0] == 'call' and sx.callee_name(c) == 'silk_gains_dequant' and len(c[2]) == 5 and sx.int_val(c[2][4]) != 1):
+                    st = an.state_before_node(b, i, c)
+                    if st is not None:
+                        v = an.ev(c[2][3], st)
+                        vs = absint.values(v, 4)
+                        got = set(vs) if vs is not None else None
+                ncase += 1
+                if got is None:
+                    rep.unresolved('R09.6', 'cannot evaluate the conditional flag of silk_gains_dequant in %s for (frame %d, prev LBRR %d, coding %d)' % (name, nfe, prev, cc), f.where())
+                    return
+                if got != {1 if want else 0} and bad is None:
+                    bad = (nfe, prev, cc, sorted(got), want)
+    inst = '%s:%s dequantises the LBRR gains with the coding mode the LBRR frame is emitted with' % (prog.config, name)
+    if bad:
+        rep.violated('R09.6', inst, f.where(), 'frame %d of a packet, previous frame %s LBRR data, regular frame coding mode %d: gains dequantised with conditional=%s but silk_Encode emits the LBRR frame %s - a delta index is written as an absolute one and FEC recovers the frame far too quiet' %
+                     (bad[0], 'has' if bad[1] else 'has no', bad[2], bad[3], 'conditionally' if bad[4] else 'independently'), key='lbrr-gain-coding:%s' % name)
+    else:
+        rep.holds('R09.6', inst, f.where(), '%d reachable (frame index, previous LBRR flag, regular coding mode) cases agree with silk_Encode' % ncase, n=ncase)
+
+
 def check(rep, prog, tier):
+    r09_6(rep, prog)
     r09_1(rep, prog)
     r09_2(rep, prog)
     r09_3(rep, prog)
